@@ -52,6 +52,9 @@ pboolean __real_p_atomic_pointer_compare_and_exchange (volatile void *, ppointer
 pboolean __real_p_spinlock_lock (PSpinLock *);
 extern void p_uthread_shutdown (void);          /* puthread.c (called by p_libsys_shutdown) */
 
+/* strings handed to intercepted libc calls (pthread_setname_np: the truncated thread name) must be terminated inside their block */
+const char *__asan_default_options (void) { return "strict_string_checks=1"; }
+
 static FILE *out;
 #define DIE(...) do { fprintf (stderr, "uthread harness: " __VA_ARGS__); fprintf (stderr, "\n"); _exit (3); } while (0)
 
